@@ -107,6 +107,15 @@ impl D {
             D::R32(s) => { let t = s.verif_state(); (t.1, t.2, t.3, t.0.iter().map(|x| x.to_bits() as u64).collect()) }
         }
     }
+    /// get_hsketch() as bit patterns (caught: it panics while bins are empty)
+    pub fn float_bits_view(&self) -> Result<Vec<u64>, String> {
+        catch(std::panic::AssertUnwindSafe(|| match self {
+            D::O64(s) => s.get_hsketch().iter().map(|x| x.to_bits()).collect(),
+            D::R64(s) => s.get_hsketch().iter().map(|x| x.to_bits()).collect(),
+            D::O32(s) => s.get_hsketch().iter().map(|x| x.to_bits() as u64).collect(),
+            D::R32(s) => s.get_hsketch().iter().map(|x| x.to_bits() as u64).collect(),
+        }))
+    }
     pub fn u32view(&self) -> Vec<u32> {
         match self {
             D::O64(s) => s.get_hsketch_u32(),
@@ -325,6 +334,20 @@ pub fn corr(ctx: &mut Ctx) {
                 }
             }
             ctx.line(&format!("dens dump{} a", sfx), &d.dump());
+            // whenever no bin is empty the three views are readable: after EVERY operation (so that anything a view
+            // call caches is exercised by the next operation) they must be images of the current internal state
+            let (values, _init, nb_empty, fbits) = d.parts();
+            if nb_empty == 0 && streamed {
+                let v64 = catch(std::panic::AssertUnwindSafe(|| d.u64view()));
+                let v32 = catch(std::panic::AssertUnwindSafe(|| d.u32view()));
+                let want32: Vec<u32> = values.iter().map(|h| murmur3::murmur3_32(&mut Cursor::new(&h.to_ne_bytes()), 127).unwrap()).collect();
+                let fv = d.float_bits_view();
+                if v64.as_ref().ok() != Some(&values) || v32.as_ref().ok() != Some(&want32) || fv.as_ref().ok() != Some(&fbits) {
+                    ctx.oracle_failure(serde_json::json!({"kind":"impl_violates_property","what":"a view (float / u64 / u32) is not the image of the current sketch state after an operation sequence","alg":alg,"sfx":sfx,"m":m,
+                        "u64_ok": v64.as_ref().ok() == Some(&values), "u32_ok": v32.as_ref().ok() == Some(&want32), "float_ok": fv.as_ref().ok() == Some(&fbits)}));
+                }
+                ctx.count("views read after an operation");
+            }
         }
     }
     // nothing streamed: must terminate and report failure (child process, 3 s watchdog)
